@@ -20,7 +20,9 @@ Inductive sop :=
 | SDumpL | SDumpS | SDumpSeq | SDumpCache | SDumpIndex
 | SNextState | SSetLastId (n : N) | SSection (n : N)
 | SKeyRt (k : key) | SKeyParse (s : str) | SValid (s : str)
-| SNode (i : nat) | SRestart (i : nat) | SSnapshot (sid : N) | SLoad (sid : N).
+| SNode (i : nat) | SRestart (i : nat) | SSnapshot (sid : N) | SLoad (sid : N)
+(* the Raft premise of multi-node history-id cases *)
+| SAlloc | SSettle (policy : N) | SApplyNext (ks : str) (all : bool) | SLog.
 
 Inductive sout :=
 | OEv (evs : list event)
@@ -38,17 +40,28 @@ Inductive sout :=
 | OKey (k : key)
 | OValid (b : bool)
 | OSnap (keys : list str) (seq_end : N)
+| OSettle (committed : option bool)
+| OCount (n : N)
+| OLog (l : list (N * option N))
 | OOk.
 
 Definition snapshot := (list (str * value_do) * N)%type.
+
+Record raftp := mkRP {
+  rp_alloc : option (N * option N);      (* the last allocation, not settled yet *)
+  rp_log : list (N * option N);          (* committed (history_id, history_table_id) *)
+  rp_applied : list nat;                 (* per node *)
+  rp_snap : list (N * nat);              (* snapshot id -> applied index *)
+}.
 
 Record world := mkW {
   w_nodes : list actor;
   w_cur : nat;
   w_snaps : list (N * snapshot);
+  w_rp : raftp;
 }.
 
-Definition world_new : world := mkW [actor_new] 0 [].
+Definition world_new : world := mkW [actor_new] 0 [] (mkRP None [] [O] []).
 
 Definition cur (w : world) : actor := nth (w_cur w) (w_nodes w) actor_new.
 
@@ -61,7 +74,12 @@ Fixpoint set_nth {A} (l : list A) (i : nat) (x d : A) : list A :=
   end.
 
 Definition set_cur (w : world) (a : actor) : world :=
-  mkW (set_nth (w_nodes w) (w_cur w) a actor_new) (w_cur w) (w_snaps w).
+  mkW (set_nth (w_nodes w) (w_cur w) a actor_new) (w_cur w) (w_snaps w) (w_rp w).
+
+Definition with_rp (w : world) (r : raftp) : world := mkW (w_nodes w) (w_cur w) (w_snaps w) r.
+Definition applied_cur (w : world) : nat := nth (w_cur w) (rp_applied (w_rp w)) O.
+Definition set_applied (w : world) (i n : nat) : world :=
+  with_rp w (mkRP (rp_alloc (w_rp w)) (rp_log (w_rp w)) (set_nth (rp_applied (w_rp w)) i n O) (rp_snap (w_rp w))).
 
 Fixpoint pad {A} (l : list A) (n : nat) (d : A) : list A :=
   match n with
@@ -78,6 +96,15 @@ Definition snapshot_of (a : actor) : snapshot :=
   (map (fun kv => (build_key (fst kv), do_of_value (snd kv))) (st_cache (a_store a)),
    get_end_id (st_seq (a_store a))).
 
+(** decimal digits of a number as ASCII bytes (the harness publishes the content "c<pos>") *)
+Fixpoint dec_digits_fuel (fuel : nat) (n : N) (acc : list N) : list N :=
+  match fuel with
+  | O => acc
+  | S f => let acc' := (48 + n mod 10) :: acc in
+           if n / 10 =? 0 then acc' else dec_digits_fuel f (n / 10) acc'
+  end.
+Definition dec_digits (n : N) : list N := dec_digits_fuel 40 n [].
+
 Section Run.
   Variable H : str -> str.
 
@@ -85,6 +112,22 @@ Section Run.
     let st := fold_left (fun s r => inner_set_config s (key_of_string (fst r)) (value_of_do H (snd r)))
                         (fst sn) (a_store a) in
     with_store a (mkStore (st_cache st) (st_index st) (set_last_id (st_seq st) (snd sn))).
+
+  (** the current node applies committed entries it has not applied yet (at most [fuel]) *)
+  Fixpoint apply_loop (fuel : nat) (ks : str) (w : world) (n : N) : world * sout :=
+    match fuel with
+    | O => (w, OCount n)
+    | S f =>
+        let pos := applied_cur w in
+        match nth_error (rp_log (w_rp w)) pos with
+        | Some (hid, mk) =>
+            let c := (N.of_nat pos) in
+            let value := [99] ++ dec_digits c in
+            let '(a', _) := step H (cur w) (MRaft (ConfigAdd ks value None None hid mk (1000 + c) None)) in
+            apply_loop f ks (set_applied (set_cur w a') (w_cur w) (S pos)) (n + 1)
+        | None => (w, OCount n)
+        end
+    end.
 
   Definition exec (w : world) (o : sop) : world * sout :=
     let a := cur w in
@@ -120,17 +163,51 @@ Section Run.
                   (w, OKeyRt b (key_of_string b) (key_eqb (key_of_string b) k))
     | SKeyParse s => (w, OKey (key_of_string s))
     | SValid s => (w, OValid (is_valid_nec s))
-    | SNode i => (mkW (pad (w_nodes w) (S i) actor_new) i (w_snaps w), OOk)
-    | SRestart i => (mkW (set_nth (pad (w_nodes w) (S i) actor_new) i actor_new actor_new)
-                         (w_cur w) (w_snaps w), OOk)
+    | SNode i =>
+        let r := w_rp w in
+        (mkW (pad (w_nodes w) (S i) actor_new) i (w_snaps w)
+             (mkRP (rp_alloc r) (rp_log r) (pad (rp_applied r) (S i) O) (rp_snap r)), OOk)
+    | SRestart i =>
+        let r := w_rp w in
+        (mkW (set_nth (pad (w_nodes w) (S i) actor_new) i actor_new actor_new) (w_cur w) (w_snaps w)
+             (mkRP (rp_alloc r) (rp_log r) (set_nth (pad (rp_applied r) (S i) O) i O O) (rp_snap r)), OOk)
     | SSnapshot sid =>
         let sn := snapshot_of a in
-        (mkW (w_nodes w) (w_cur w) ((sid, sn) :: w_snaps w), OSnap (map fst (fst sn)) (snd sn))
+        let r := w_rp w in
+        (mkW (w_nodes w) (w_cur w) ((sid, sn) :: w_snaps w)
+             (mkRP (rp_alloc r) (rp_log r) (rp_applied r) ((sid, applied_cur w) :: rp_snap r)),
+         OSnap (map fst (fst sn)) (snd sn))
     | SLoad sid =>
-        match find (fun e => fst e =? sid) (w_snaps w) with
-        | Some e => (set_cur w (load_snapshot a (snd e)), OOk)
-        | None => (w, OOk)
+        let w1 := match find (fun e => fst e =? sid) (w_snaps w) with
+                  | Some e => set_cur w (load_snapshot a (snd e))
+                  | None => w
+                  end in
+        (match find (fun e => fst e =? sid) (rp_snap (w_rp w)) with
+         | Some e => set_applied w1 (w_cur w) (snd e)
+         | None => w1
+         end, OOk)
+    | SAlloc =>
+        let st := a_store a in
+        match next_state (st_seq st) with
+        | Some (q, r) =>
+            let w1 := set_cur w (with_store a (mkStore (st_cache st) (st_index st) q)) in
+            (with_rp w1 (mkRP (Some r) (rp_log (w_rp w)) (rp_applied (w_rp w)) (rp_snap (w_rp w))), ONext (Some r))
+        | None => (w, ONext None)
         end
+    | SSettle policy =>
+        let r := w_rp w in
+        match rp_alloc r with
+        | Some (id, mk) =>
+            let lose := if policy =? 1 then true
+                        else if policy =? 2 then (match mk with None => true | Some _ => false end)
+                        else if policy =? 3 then (match mk with None => false | Some _ => true end)
+                        else false in
+            if lose then (with_rp w (mkRP None (rp_log r) (rp_applied r) (rp_snap r)), OSettle (Some false))
+            else (with_rp w (mkRP None (rp_log r ++ [(id, mk)]) (rp_applied r) (rp_snap r)), OSettle (Some true))
+        | None => (w, OSettle None)
+        end
+    | SApplyNext ks all => apply_loop (if all then length (rp_log (w_rp w)) else 1%nat) ks w 0
+    | SLog => (w, OLog (rp_log (w_rp w)))
     end.
 
   Fixpoint run_script (w : world) (ops : list sop) : list sout :=
